@@ -140,6 +140,8 @@ def clock_now():
 
 def advance_clock(lo=None, hi=None):
     d = fresh_time("dt")
+    if lo is not None and d < lo:
+        d = float(lo)
     CLOCK[0] += d
     return d
 
@@ -152,12 +154,36 @@ def suspension_count():
     return len([e for e in EVENTS if e[0] == "suspend"])
 
 
+_SLEEP_MODEL = [None]
+_SUSPEND_HOOK = [None]
+
+
 def set_sleep_model(f):
-    pass
+    _SLEEP_MODEL[0] = f
 
 
 def set_suspend_hook(f):
-    pass
+    _SUSPEND_HOOK[0] = f
+
+
+async def _ghost_sleep(delay, result=None):
+    EVENTS.append(("suspend", "sleep"))
+    if _SUSPEND_HOOK[0] is not None:
+        _SUSPEND_HOOK[0]("sleep")
+    if _SLEEP_MODEL[0] is not None:
+        _SLEEP_MODEL[0](delay)
+    else:
+        CLOCK[0] += max(float(delay), fresh_time("sleep"))
+    return result
+
+
+def install_ghost_clock():
+    """replay under the ghost clock: time.monotonic reads it, asyncio.sleep advances it"""
+    import time
+    CLOCK[0] = float(_fresh("clock0", 0.0)) if "clock0" in MODEL else 0.0
+    _USED.pop("clock0", None)
+    time.monotonic = lambda: CLOCK[0]
+    asyncio.sleep = _ghost_sleep
 
 
 def cancel_here():
@@ -235,6 +261,17 @@ def install_summary(sname):
                 _MODE.pop()
     wrapper.__wrapped_target__ = orig
     _ORIG[(owner, attr)] = raw
+    import sys
+    import types
+    if isinstance(owner, types.ModuleType):
+        # names imported with `from module import f` are separate bindings: patch them too
+        for mname, m in list(sys.modules.items()):
+            if m is None or not mname.startswith("geckolib") or m is owner:
+                continue
+            for k, v in list(vars(m).items()):
+                if v is raw:
+                    _ORIG[(m, k)] = raw
+                    setattr(m, k, wrapper)
     if kind == "static":
         setattr(owner, attr, staticmethod(wrapper))
     elif kind == "property":
@@ -267,3 +304,7 @@ class u32(int):
 
 def sym_list(n, f, key=None):
     return [f(j) for j in range(n)]
+
+
+def set_clock(t):
+    CLOCK[0] = float(t)
